@@ -17,6 +17,33 @@ class Holder:
         return None
 
 
+EXTRA = {'token': 7}
+
+
+def state_dict_oracle(log):
+    """every callback sees event_count = the number of events handled before it, the spawn object as child and the caller's
+    extra_args (the entries of the state dictionary the documentation names)"""
+    events_before = 0
+    pending_cb_send = False
+    for e in log:
+        if e[0] == 'send':
+            if pending_cb_send:
+                pending_cb_send = False          # the string a callback returned: same event
+            else:
+                events_before += 1               # a string response
+        else:
+            _, count, returns_str, child_ok, extra_ok = e
+            if count != events_before:
+                return 'a callback was told event_count=%r, %d events had been handled before it' % (count, events_before)
+            if not child_ok:
+                return 'the state dictionary\'s child is not the spawn object'
+            if not extra_ok:
+                return 'the state dictionary\'s extra_args is not what the caller passed'
+            events_before += 1
+            pending_cb_send = returns_str
+    return None
+
+
 def run_real(pexpect, case):
     import sys
     import pexpect.run
@@ -52,6 +79,7 @@ def run_real(pexpect, case):
 
         def send(self, s):
             sent.append(s)
+            box.setdefault('log', []).append(('send',))
             return len(s)
 
         def close(self, force=True):
@@ -77,7 +105,14 @@ def run_real(pexpect, case):
             if resp[2] == 'method' and v[0] == 'none':
                 r = h.method_none
             else:
-                r = (lambda val_: (lambda d: val_))(val)
+                def mk(val_):
+                    def cb(d):
+                        # what the callback is told: the documented entries of the state dictionary
+                        box.setdefault('log', []).append(('cb', d.get('event_count'), isinstance(val_, (str, bytes)), d.get('child') is box.get('child'),
+                                                          d.get('extra_args') is EXTRA))
+                        return val_
+                    return cb
+                r = mk(val)
         else:
             r = 12345
         events.append((p, r))
@@ -92,7 +127,7 @@ def run_real(pexpect, case):
             kw = {'encoding': 'latin-1'} if case['unicode'] else {}
             if case.get('window') is not None:
                 kw['searchwindowsize'] = case['window']          # handed on to the spawn object
-            res = runmod.run('cmd', timeout=30, events=ev_arg, withexitstatus=case['withexit'], **kw)
+            res = runmod.run('cmd', timeout=30, events=ev_arg, withexitstatus=case['withexit'], extra_args=EXTRA, **kw)
             if case['withexit']:
                 out, status = res
                 box['status'] = status
@@ -262,6 +297,8 @@ def run(ctx):
                 occurrences = consumed.count(t)
                 if occurrences is not None and len(sent) != occurrences:
                     bad = 'the event pattern %r occurs %d times in the output %r but its response was sent %d times' % (t, occurrences, consumed[:60], len(sent))
+        if not bad and not any(r[0] == 'cb' and r[2] == 'method' for _, r in case['events']):
+            bad = state_dict_oracle(box.get('log', []))
         if bad and nhit < 3:
             nhit += 1
             ctx.hit('C12/output', bad, {'case': case, 'output': repr(out), 'sent': repr(sent)})
